@@ -112,7 +112,14 @@ def _add_markdown_hard_break_handling(base_wrapper: LineWrapper) -> LineWrapper:
         # Handle single segment (no hard line breaks).
         if len(segments) == 1:
             result = base_wrapper(text, initial_indent, subsequent_indent)
-            if "\n" not in result and markdown_line_is_rule(result[len(initial_indent) :]):
+            # Seen here, where the text is a whole paragraph: one line that is a rule, or
+            # several lines of which the first starts like a link reference definition
+            # (`[label]: word` becomes one as soon as a line ends after the word).
+            if (
+                markdown_line_is_rule(result[len(initial_indent) :])
+                if "\n" not in result
+                else markdown_starts_like_definition(text)
+            ):
                 escaped_text = markdown_escape_first_word(text)
                 if escaped_text != text:
                     result = base_wrapper(escaped_text, initial_indent, subsequent_indent)
